@@ -69,3 +69,34 @@ package labelmap
 //@   assert at "if targetIdx, err = getCachedLabelIndex(d, v, op.Target); err == nil {": heldw("indexMu[shard]")
 //@   assert at "else if err = targetIdx.Add(mergeIdx, mutInfo); err == nil {": heldw("indexMu[shard]") && lockepoch("indexMu[shard]") == ep
 //@   assert at "err = putCachedLabelIndex(d, v, targetIdx)": heldw("indexMu[shard]") && lockepoch("indexMu[shard]") == ep
+
+// ---- the recorded maximum label only grows (C12: a new label is never issued twice; C11) ----
+// New labels are handed out above d.MaxLabel[v] / d.MaxRepoLabel, so whatever other requests did since
+// the comparison was made, an update must never lower them. `interference`: on every acquisition of mlMu
+// the fields it guards are assumed to have been changed arbitrarily by other goroutines.
+
+//@ guarded Data.MaxLabel, Data.MaxRepoLabel, Data.NextLabel by mlMu
+
+//@ func Data.updateMaxLabel
+//@   prop C12 C11
+//@   requires d != nil && d.MaxLabel != nil
+//@   lockset
+//@   interference
+//@   lockbalance
+//@   safety_off
+//@   calls_havoc
+//@   modifies *
+//@   assert at "d.MaxLabel[v] = label": !has(d.MaxLabel, v) || d.MaxLabel[v] < label
+//@   assert at "d.MaxRepoLabel = label": d.MaxRepoLabel < label
+
+//@ func Data.updateBlockMaxLabel
+//@   prop C12 C11
+//@   requires d != nil && d.MaxLabel != nil && block != nil
+//@   lockset
+//@   interference
+//@   lockbalance
+//@   safety_off
+//@   calls_havoc
+//@   modifies *
+//@   assert at "d.MaxLabel[v] = curMax": !has(d.MaxLabel, v) || d.MaxLabel[v] < curMax
+//@   assert at "d.MaxRepoLabel = curMax": d.MaxRepoLabel < curMax
